@@ -13,7 +13,7 @@ CHECKS = {
     text="Stateless model checking of the real layouts/appenders/loggers under a cooperative scheduler: every schedule of 2-3 "
          "logging goroutines (1-2 events each, short and beyond-cap lines) with <=2 preemptions (thorough: 3 + one sync.Pool miss) "
          "over console/file/rolling/fan-out/built-in sinks x both layouts, with a sink that consumes the slice in two steps. "
-         "Oracle: multiset of sink writes and file contents == lines of the same events formatted alone. Exhaustive within the bounds.",
+         "Oracle: multiset of sink writes and file contents == lines of the same events formatted alone. Exhaustive within the bounds. Complementary (sampling, separately labelled): the same kind of bodies run free with 8 real goroutines on the uninstrumented package under the race detector; a race report with a library frame or a line that differs from the solo line is a violation.",
     note=SCHED_NOTE, technique="stateless model checking (controlled scheduler, preemption-bounded DFS over the instrumented implementation)",
     design="DESIGN.md section 3 C03"),
  "C04": dict(
@@ -32,7 +32,7 @@ CHECKS = {
     text="Stateless model checking of the real RollingFileAppender on an in-memory filesystem and virtual clock: all schedules (<=2 preemptions) x all placements of <=2-3 interval boundaries (the clock may cross a boundary at any time.Now call) of 1-2 writers x 2-3 writes, a pre-existing file, a Stop/Start cycle; every id exactly once over all files, file names name.<14 digits>, append-only opens, no write older than its file's name, single writer: a write after a boundary lands in a file of the new interval. Model<->OS: every execution of three conformance scenarios (14 k traces in the quick tier) is replayed call by call against a real temporary directory (same error class per call, same directory listing and file contents at the end).",
     note=SCHED_NOTE, technique="stateless model checking (controlled scheduler + virtual clock, preemption/tick-bounded DFS over the instrumented implementation)", design="DESIGN.md section 3 C13"),
  "C19": dict(
-    text="Fault enumeration on top of the C13 model checking: every filesystem call (open, write, sync, close, readdir, remove) may fail (ENOENT / EIO / short write) within a fault budget of 2 (thorough 3), combined with boundary placements and schedules: no panic, no blocked call; when only creations fail nothing is lost and a later interval attempts creation again.",
+    text="Fault enumeration on top of the C13 model checking: every filesystem call (open, write, sync, close, readdir, remove) may fail (ENOENT / EIO / short write) within a fault budget of 2 (thorough 3), combined with boundary placements and schedules: no panic, no blocked call; when only creations fail nothing is lost and a later interval attempts creation again. Second clause: a family of 15 appender kind x target state cases (File/RollingFile never started, Start failed on a missing directory, stopped, stopped twice, directory removed, healthy; console stream that errors / writes short) x Append/Write x boundaries x failing creations: no panic, every call returns.",
     note=SCHED_NOTE, technique="stateless model checking with exhaustive fault injection (deviation-bounded DFS)", design="DESIGN.md section 3 C19"),
  "C14": dict(
     text="Stateless model checking over a family of directory populations: every set of <=3 (thorough 4) entries from a 13-name alphabet (own rotated files, name.wf.<ts>, name.audit.<ts>, name.bak, name.1.gz, 13/15-digit and non-digit suffixes, bare name, foreign file, look-alike directory) x 4 ages around the cut-off x max ages 1/24/168/720 h, for the appender and its .wf sibling; the cleanup is triggered by a real rotation on the in-memory filesystem and its goroutine is interleaved with a further write (P<=1). Oracle: exact survivor set.",
@@ -57,14 +57,14 @@ CHECKS = {
     note="Trusted: the JSON tokens of C07 as reference. A trailing '||' after the context string when there are no fields is tolerated.",
     technique="explicit-state enumeration + differential check against the JSON layout", design="DESIGN.md section 3 C08", engine="enum"),
  "C09": dict(
-    text="Exhaustive: WriteLogString on every byte string of length <=3 (thorough <=4: 4.3e9) over all 256 byte values and of length <=6 (7) over 14 UTF-8 boundary bytes, decoded by a strict hand-written JSON string decoder (cross-checked against encoding/json) and compared with the input under U+FFFD replacement; memorylessness (esc(a+b)=esc(a)+esc(b) at rune boundaries); AppendKey/AppendString of both encoders on all strings of length <=2.",
+    text="Exhaustive: WriteLogString on every byte string of length <=3 (thorough <=4: 4.3e9) over all 256 byte values and of length <=6 (7) over 14 UTF-8 boundary bytes, decoded by a strict hand-written JSON string decoder (cross-checked against encoding/json) and compared with the input under U+FFFD replacement; memorylessness (esc(a+b)=esc(a)+esc(b) at rune boundaries); AppendKey/AppendString of both encoders on all strings of length <=2; context independence (every x of <=2 bytes inside plain-ASCII prefixes/suffixes of 12 lengths up to 33, which rules out wider look-ahead); a complementary free-running -race pass (8 goroutines escaping concurrently; sampling) for shared scratch state.",
     note="Trusted: the 60-line reference decoder in harness/enum/c09.go (itself checked against encoding/json). Longer strings are covered by the memorylessness argument, not enumerated.",
     technique="exhaustive input enumeration against a reference decoder", design="DESIGN.md section 3 C09", engine="enum"),
  "C10": dict(
-    text="Complete finite product: 15 entry points x serving logger (built-in before Refresh, sync, async, sync whose reference filters the event) x range below/at/above x 8 hook subsets x 3 contexts (3600 cases): hook and lazy-generator call counts, the context they receive, the hook's time / string / fields in the recorded event and their order in the formatted line.",
+    text="Complete finite product: 15 entry points x serving logger (built-in before Refresh, sync, async, sync whose reference filters the event) x range below/at/above x 8 hook subsets x 4 contexts incl. nil (4800 cases): hook and lazy-generator call counts, the context they receive, the hook's time / string / fields in the recorded event and their order in the formatted line.",
     note="Trusted: counting hooks; async loggers are observed after Destroy.", technique="exhaustive enumeration of a finite product of configurations", design="DESIGN.md section 3 C10", engine="enum"),
  "C11": dict(
-    text="Complete finite product over generated call sites: 16 entry-point forms (Record with skip 1 and 2) x 7 call shapes (plain, closure, deferred closure, goroutine, method value, generic helper, inlinable helper) x {default, fast} x {first, repeated call = cache hit} x enableCaller on/off set through Refresh; oracle: runtime.Caller evaluated on the line directly above the call (inlining left on).",
+    text="Complete finite product over generated call sites: 16 entry-point forms (Record with skip 1 and 2) x 7 call shapes (plain, closure, deferred closure, goroutine, method value, generic helper, inlinable helper) x {default, fast} x {first, repeated call = cache hit} x enableCaller on/off set through Refresh, each case after a history of records logged with caller lookup on (recycled events, cached frames); oracle: runtime.Caller evaluated on the line directly above the call (inlining left on).",
     note="Trusted: runtime.Caller; the generated file harness/enum/c11_sites.go.", technique="exhaustive enumeration of a finite product of programs x configurations", design="DESIGN.md section 3 C11", engine="enum"),
  "C15": dict(
     text="Bounded-exhaustive enumeration around 5 base configurations covering every registered appender and logger type and element shape: all single deviations (thorough: all pairs) - key respelled kebab/snake, ${prop} present/absent, attribute removed (default or error), ill-typed values incl. int32 overflow, alternative values, sub-tree inline as a name! expression - with expected error-ness and a reflection dump of the instantiated plugins compared with the base; totality: every key deleted / every value replaced by 14 hostile strings / every key mangled 10 ways -> nil or error, never a panic, and a valid configuration loads after Destroy; every registered type from its minimal configuration; the logger-kinds family and a map-iteration-order family (properties applied, routing unchanged under every single deviation of every map iteration in Refresh) under the scheduler.",
@@ -75,7 +75,7 @@ CHECKS = {
     note="Trusted: the lifecycle model in harness/enum/c16.go. After a failed Refresh an item may reach the console or the failed configuration's sink (the statement is silent); async sinks are observed after the final Destroy.",
     technique="explicit-state search over operation sequences against a reference lifecycle model", design="DESIGN.md section 3 C16", engine="enum"),
  "C17": dict(
-    text="Bounded-exhaustive enumeration against a reference lexer + recursive-descent flattener transcribed from Expr.g4: every token sequence of <=6 (thorough 7) tokens over 14 lexemes in two spacings, every string of length <=4 (5) over a 26-symbol alphabet bare and inside T{k=...}, nesting/width ladders and 64 KiB inputs run in child processes with an address-space limit (a process crash is a violation).",
+    text="Bounded-exhaustive enumeration against a reference lexer + recursive-descent flattener transcribed from Expr.g4: every token sequence of <=6 (thorough 7) tokens over 14 lexemes in two spacings, every string of length <=4 (5) over a 26-symbol alphabet bare and inside T{k=...}, every list of <=3 (4) assignments from 12 forms that write into one key space at several nesting depths (source-order 'later wins'), nesting/width ladders and 64 KiB inputs run in child processes with an address-space limit (a process crash is a violation).",
     note="Trusted: the reference grammar in harness/enum/c17.go. Inputs are compared as rune sequences (invalid bytes read as U+FFFD). 64 KiB inputs only along one-parameter ladders.",
     technique="small-scope input enumeration against a reference parser", design="DESIGN.md section 3 C17", engine="enum"),
  "C18": dict(
